@@ -52,3 +52,34 @@ func genC17(t *rapid.T) *world.Plan {
 	}
 	return p
 }
+
+// C19: no oracle of its own. The binary is built with the race detector; the
+// reports it writes while a plan runs become violations in world.Run
+// (world/race.go). The generator's job is to make many things happen at once
+// inside one node: two swaps, the peer initiating too, policy and premium
+// commands, restarts (recovery racing with incoming messages), chain events.
+func init() {
+	register(&PropDef{
+		ID: "C19",
+		Gen: func(t *rapid.T, tier string) *world.Plan {
+			p := genPlan(t, genOpts{maxCrashes: 2, maxFaults: 1, maxNet: 2, maxLN: 1, sched: true, healProb: 30, secondOp: true, peerOps: true,
+				policyOps: true, premiums: true, reorgs: true, duration: []int{300, 900}, restartMs: []int{500, 5000},
+				inject: []string{"cancel", "coop", "request-in", "request-out"}, maxInject: 2})
+			if rapid.Bool().Draw(t, "msg-during-recovery") {
+				// a restart at a known time with peer messages for the node's swaps
+				// landing while it recovers them
+				node := rapid.IntRange(0, 1).Draw(t, "rnode")
+				at := rapid.IntRange(2_500, 60_000).Draw(t, "rat")
+				down := pick(t, "rdown", []int{200, 500, 2000})
+				p.Ops = append(p.Ops, world.Op{AtMs: at, Node: node, Kind: "crash", N: int64(down)})
+				for i, k := 0, rapid.IntRange(1, 4).Draw(t, "rmsgs"); i < k; i++ {
+					p.Adv = append(p.Adv, world.AdvMove{Kind: "inject", AtMs: at + down + rapid.IntRange(0, 300).Draw(t, "rdelta"), N: int64(node), M: int64(1 - node),
+						Arg: pick(t, "rtpl", []string{"cancel", "coop", "opening", "agreement-in", "agreement-out"})})
+				}
+			}
+			return p
+		},
+		Monitors:   world.MonitorsFor("C19"),
+		Nontrivial: func(r *world.Result) bool { return r.Msgs > 3 },
+	})
+}
